@@ -19,9 +19,9 @@ VERIF = os.path.abspath(os.path.join(os.path.dirname(__file__), '..', '..', '..'
 QUICK = [('core-none', 'serde-none'), ('core-alloc', 'serde-alloc'), ('core-alloc-t32', None)]
 THOROUGH = [('core-none', 'serde-none'), ('core-half', 'serde-half'), ('core-alloc', 'serde-alloc'), ('core-alloc-half', None), ('core-std', 'serde-std'), ('core-alloc-t32', None)]
 # the 32-bit twin (target_pointer_width = "32", atomic32; thumbv7m-none-eabi, core and alloc type-checked from rust-src): the rule sets
-# whose references do not depend on the pointer width. C04 / C13 / C06 / C07 / C11 are not re-run there: their references describe
+# whose references do not depend on the pointer width (symbolic lengths are capped at 2^27 there). C04 / C13 / C06 / C11 are not re-run there: their references describe
 # lengths up to 2^64 (a 32-bit build legitimately answers Overflow above 2^32) and the may-panic scan of a debug-profile core differs.
-T32_RULES = ('C03', 'C05', 'C12', 'C01')
+T32_RULES = ('C03', 'C05', 'C12', 'C01', 'C07')
 SUBRULES = ['C03', 'C04', 'C05', 'C12', 'C01', 'C13', 'C02', 'C17']
 SERDE_RULES = ('C17', 'C02')
 
@@ -118,7 +118,7 @@ def table_identity(ctx, pairs, good):
         if serde:
             load.ALIAS['serde-full'] = serde
         try:
-            for pid in SUBRULES:
+            for pid in (T32_RULES if core.endswith('-t32') else SUBRULES):
                 if pid in ('C17',) and not serde:
                     continue
                 if pid == 'C02' and not serde:
@@ -289,7 +289,7 @@ def item_text(root, file, line):
 
 
 def width_twins(ctx):
-    ctx.rules_run.append('CFG-TWIN: the target_pointer_width 32/64 twins of the usize/isize impls are token-identical up to the fixed-width type (u32/u64, i32/i64), so the 64-bit tables carry over')
+    ctx.rules_run.append('CFG-TWIN (census): every target_pointer_width item has a 32-bit and a 64-bit twin; whether they are token-identical up to the fixed-width type is noted - the behaviour of both is decided by CFG-TABLES (host build and core-alloc-t32)')
     root = export.REPO
     sites = [s for s in cfg_sites(root, ['minicbor']) if s['pred'].startswith('target_pointer_width=') and s['kind'] == 'item']
     groups = {}
@@ -309,7 +309,10 @@ def width_twins(ctx):
         if texts[0] == texts[1]:
             ctx.ok('CFG-TWIN', '%s|%s' % (f, ident))
         else:
-            ctx.violation('CFG-TWIN', '%s|%s' % (f, ident), 'the 32-bit and 64-bit twins differ in more than the fixed-width integer type', '%s:%d' % (f, ss[0]['line']))
+            # a census since the 32-bit arms are type-checked and decided semantically (CFG-TABLES on core-alloc-t32 runs the
+            # encoder / decoder / length rules of C01, C03, C05, C07 on them): a textual difference between twins is not a verdict
+            ctx.notes.append('CFG-TWIN: the 32-bit and 64-bit twins of %s (%s) differ in more than the fixed-width integer type; both are decided by CFG-TABLES' % (ident, f))
+            ctx.ok('CFG-TWIN', '%s|%s|differs' % (f, ident), nontrivial=False)
     ctx.floor('CFG-TWIN', 'twin pairs', n, 6)
 
 
